@@ -7,13 +7,18 @@ From RlibV Require Import Common.Batch C03.Model C03.Corr C03.Proofs C03.ProofsI
 Import ListNotations.
 Open Scope Z_scope.
 
-Lemma conv_fresh {T M A} (size : T -> Z) (elem : T -> Z) (agg : T -> A) (aggf : list Z -> A)
+(** every item that a concrete history hands to from_item / insert_at is a freshly made item modified any number of
+    times: [Detached] for a lawful item *)
+Lemma conv_detached {T M A} (update : T -> option T -> option T -> T) (push : T -> option T -> option T -> T * option T * option T)
+      (size : T -> Z) (modify : M -> T -> T) (elem : T -> Z) (agg : T -> A) (act : M -> Z -> Z) (aggf : list Z -> A)
       (Pending : T -> list M -> Prop) (mk : Z -> T) (md : amod -> M) :
+  lawful update push size modify elem agg act aggf Pending ->
   (forall v, Fresh size elem agg aggf Pending (mk v)) ->
-  forall ops, Forall (op_fresh size elem agg aggf Pending) (map (conv mk md) ops).
+  forall ops, Forall (op_detached size elem agg aggf Pending) (map (conv modify mk md) ops).
 Proof.
-  intros Hf ops. induction ops as [|o ops IH]; simpl; constructor; auto.
-  destruct o; simpl; auto.
+  intros LAW Hf ops. induction ops as [|o ops IH]; simpl; constructor; auto.
+  destruct o; simpl; auto;
+    apply (Detached_mods update push size modify elem agg act aggf Pending LAW); apply Fresh_Detached, Hf.
 Qed.
 
 (** ---------- boolean equalities ---------- *)
@@ -89,17 +94,17 @@ Proof.
   intros Hm. apply (c03_leqb_eq out_eqb out_eqb_eq) in Hm. subst o.
   unfold spec_outputs, model_outputs. destruct kind as [|[|k]].
   - unfold srun0, run0. destruct (srun ix Z.add zsum [] (map to_op0 ops)) as [[sst outs]|] eqn:E; simpl; [|reflexivity].
-    destruct (history _ _ _ _ _ _ _ _ _ isz_lawful ps _ sst outs (conv_fresh _ _ _ _ _ _ _ isz_fresh ops) E) as (H & Hf & _).
+    destruct (history _ _ _ _ _ _ _ _ _ isz_lawful ps _ sst outs (conv_detached _ _ _ _ _ _ _ _ _ _ _ isz_lawful isz_fresh ops) E) as (H & Hf & _).
     unfold run_outputs in H, Hf. rewrite <- H. apply all2_map_map. eapply Forall_impl; [|exact Hf].
     intros r Hr. rewrite <- (out_map_id (out_elem ix r)). apply spec_ok_model.
     intros x ->. now apply fresh_ok0.
   - unfold srun1, run1. destruct (srun ax amod_act zsum [] (map to_op1 ops)) as [[sst outs]|] eqn:E; simpl; [|reflexivity].
-    destruct (history _ _ _ _ _ _ _ _ _ iaa_lawful ps _ sst outs (conv_fresh _ _ _ _ _ _ _ iaa_fresh ops) E) as (H & Hf & _).
+    destruct (history _ _ _ _ _ _ _ _ _ iaa_lawful ps _ sst outs (conv_detached _ _ _ _ _ _ _ _ _ _ _ iaa_lawful iaa_fresh ops) E) as (H & Hf & _).
     unfold run_outputs in H, Hf. rewrite <- H. apply all2_map_map. eapply Forall_impl; [|exact Hf].
     intros r Hr. rewrite <- (out_map_id (out_elem ax r)). apply spec_ok_model.
     intros x ->. now apply fresh_ok1.
   - unfold srun2, run2. destruct (srun hx Z.add hashagg [] (map to_op2 ops)) as [[sst outs]|] eqn:E; simpl; [|reflexivity].
-    destruct (history _ _ _ _ _ _ _ _ _ ihs_lawful ps _ sst outs (conv_fresh _ _ _ _ _ _ _ ihs_fresh ops) E) as (H & Hf & _).
+    destruct (history _ _ _ _ _ _ _ _ _ ihs_lawful ps _ sst outs (conv_detached _ _ _ _ _ _ _ _ _ _ _ ihs_lawful ihs_fresh ops) E) as (H & Hf & _).
     unfold run_outputs in H, Hf. rewrite <- H. rewrite map_map. apply all2_map_map. eapply Forall_impl; [|exact Hf].
     intros r Hr. apply spec_ok_model. intros x ->. now apply fresh_ok2.
 Qed.
